@@ -34,7 +34,7 @@ CHECKS = {
          "DESIGN.md section 3, C12"),
  "C13": ("E4 textsweep (+E3)", "exploration",
          "bounded-exhaustive exploration of all type expressions up to a nesting bound; every use site in the emitted text re-tokenised and compared; rustc for real types",
-         "All type expressions of nesting depth <=2 over unit, paths of 1-3 segments and generic callees with 1-2 arguments (1.3e3 quick / 4.6e4 thorough) plus a chain of deeper nestings, types large in one dimension (identifiers of 31..4096 characters, paths of up to 257 segments, up to 257 generic arguments, two-argument nesting to depth 200) and the name-relation space (lookups by name), spelt with rotating whitespace and comments, each declared as a terminal payload in a grammar exposing 12 use sites (terminal enum, named/tuple fields of a struct and of enum variants, node enum, helper functions): every located occurrence must equal the declaration token for token. For 11 real Rust types rustc asserts type identity at every public use site.",
+         "All type expressions of nesting depth <=2 over unit, paths of 1-3 segments and generic callees with 1-2 arguments (1.3e3 quick / 4.6e4 thorough) plus a chain of deeper nestings, types large in one dimension (identifiers of 31..4096 characters, paths of up to 257 segments, up to 257 generic arguments, two-argument nesting to depth 200), every Rust keyword, primitive type and underscore-initial name as a path segment in every position, and the name-relation space (lookups by name), spelt with rotating whitespace and comments, each declared as a terminal payload in a grammar exposing 12 use sites (terminal enum, named/tuple fields of a struct and of enum variants, node enum, helper functions): every located occurrence must equal the declaration token for token. For 11 real Rust types rustc asserts type identity at every public use site.",
          "token equality is tested on the whitespace-free concatenation of tokens (unambiguous for this syntax).",
          "DESIGN.md section 3, C13"),
  "C14": ("E5 permexplore", "model_checking",
@@ -49,7 +49,7 @@ CHECKS = {
          "DESIGN.md section 3, C15"),
  "C16": ("E4 textsweep", "exploration",
          "bounded-exhaustive exploration of re-layouts by deviation from the canonical layout; oracle: result equality with error positions mapped through the token correspondence",
-         "For 79 (quick) / ~280 (thorough) base sources (repository files incl. should-fail and parser.kiki, conflict grammars, texts with parse and validation errors of every kind, samples of G(2,2,3,2)): the original layout, all uniform layouts over a 10-element gap alphabet (LF, CRLF, tab, U+2003, comments incl. one with a bare CR, nothing) and every layout differing from the canonical one in 1 gap (quick) / 2 gaps (thorough, <=60 tokens; quick <=36), every Unicode White_Space character as a gap, and 30 large gaps (255..257 and 65 534..65 537 blanks, hundreds of lines, comments of 2^8 and 2^16 bytes, 14 000 comment lines); Ok outputs equal modulo the hash line; errors equal with every ByteIndex sharing a descriptor (start / start+1 / end of token k, source length) between the two layouts.",
+         "For 79 (quick) / ~280 (thorough) base sources (repository files incl. should-fail and parser.kiki, conflict grammars, texts with parse and validation errors of every kind, samples of G(2,2,3,2)): the original layout, all uniform layouts over a 10-element gap alphabet (LF, CRLF, tab, U+2003, comments incl. one with a bare CR, nothing) and every layout differing from the canonical one in 1 gap (quick) / 2 gaps (thorough, <=60 tokens; quick <=36), every Unicode White_Space character as a gap, a comment beginning with every printable ASCII character (`///`, `//!`, `//#[a]`, ...) as a gap, and 30 large gaps (255..257 and 65 534..65 537 blanks, hundreds of lines, comments of 2^8 and 2^16 bytes, 14 000 comment lines); Ok outputs equal modulo the hash line; errors equal with every ByteIndex sharing a descriptor (start / start+1 / end of token k, source length) between the two layouts.",
          "a re-layout is defined by R-lex token equality; sources that do not lex have no re-layouts.",
          "DESIGN.md section 3, C16"),
  "C05": ("E3 rustc compile-only", "exploration",
